@@ -17,6 +17,12 @@ MAY_PANIC_CALLS = [
     (re.compile(r"^(core|std)::panicking::"), "panic"),
     (re.compile(r"^std::rt::(begin_panic|panic_fmt)"), "panic"),
     (re.compile(r"^std::char::from_digit$"), "from_digit"),
+    # allocations sized by a value: "capacity overflow" / allocation failure when the size is a magnitude from the
+    # pattern (a quantifier bound) rather than something bounded by the lengths of pattern and input
+    (re.compile(r"^(std|alloc)::vec::Vec::<.*>::(with_capacity|reserve|reserve_exact|resize)$"), "alloc"),
+    (re.compile(r"^(std|alloc)::vec::from_elem$"), "alloc"),
+    (re.compile(r"^(std|alloc)::string::String::(with_capacity|reserve)$"), "alloc"),
+    (re.compile(r"^std::collections::(HashMap|HashSet|VecDeque)::<.*>::(with_capacity|reserve)$"), "alloc"),
     (re.compile(r"^std::collections::HashMap::<.*> as std::ops::Index"), "index"),
     (re.compile(r"^std::iter::Iterator::step_by$"), "step_by"),
     # integer arithmetic done inside the standard library on behalf of this crate: `sum`/`product` inherit the
@@ -279,6 +285,13 @@ class SiteScan:
             d_, r_, fn_ = callee(t)
             if r_.endswith(("::sum", "::product")):
                 return False, "sum/product of an iterator: overflow-checked like the caller; the elements are not known to be small"
+            return True, ""
+        if kind == "alloc":
+            d_, r_, fn_ = callee(t)
+            m_ = r_.split("::")[-1]
+            size = args[0] if m_ == "with_capacity" else (args[1] if len(args) > 1 else None)
+            if size is not None and tainted(size):
+                return False, "an allocation sized by a quantifier bound (%s): a huge count in the pattern makes the allocation itself panic ('capacity overflow') or exhaust memory" % show(size)[:80]
             return True, ""
         if kind == "refcell":
             return True, ""  # decided by BORROW-SCOPE
